@@ -8,7 +8,8 @@
    closing, and - once the connection has been handed over - the user issuing calls, obtaining
    proxies, registering and cancelling disconnect callbacks.  Every statement is for every address
    list, every first serial and every event list. *)
-From Tx Require Import Lib.Base Model.Calls Model.Connect Spec.ConnectSpec Proofs.ConnectProofs.
+From Tx Require Import Lib.Base Model.Calls Model.Connect Model.ConnectRe Spec.ConnectSpec Proofs.ConnectProofs
+  Proofs.ConnectReProofs.
 From Coq Require Import Permutation.
 Local Open Scope N_scope.
 
@@ -133,6 +134,93 @@ Example C09_outcomes :
   st_fired (run a 1 [EEpFail; EEpOk; EAuthRefused]) = [].
 Proof. vm_compute. repeat split; reflexivity. Qed.
 
+(* ---- disconnect callbacks that act on the connection while the loss is handled --------------------
+
+   [run_re acts] is [run] with connectionLost of an authenticated connection replaced by the re-entrant
+   model of Model/ConnectRe.v: a callback cb, when it runs, performs [acts cb] - it issues calls (with or
+   without deadline), registers or cancels disconnect callbacks on the connection or on a proxy.  The
+   statements hold for EVERY assignment acts. *)
+
+(* The passive development is the special case in which no callback does anything. *)
+Theorem C09_reentrant_extends_passive :
+  forall addr serial0 evs, run_re no_actions addr serial0 evs = run addr serial0 evs.
+Proof. exact run_re_passive. Qed.
+
+(* When a ready connection is lost with reason r ([loss_reentrant_ok], Spec/ConnectSpec.v):
+   every call outstanding at the loss has failed with r, and so has every call a callback issued while
+   the loss was handled (unless no 32-bit serial was left for it: then it failed at once); no Deferred
+   completes twice and nothing else completed; no pending entry and no timer remains; no callback had
+   run before; the callbacks that run are every connection-level callback registered at the loss, once
+   per registration - even if a callback cancels it meanwhile, and NOT one that a callback registers
+   meanwhile - and every proxy-level callback registered when the connection-level callbacks have
+   finished ([conn_phase]), once per registration; connect()'s Deferred is untouched.
+   And for every continuation of the history ([quiet]): no callback runs again - in particular a
+   callback registered during the loss never runs -, connect()'s Deferred stays as it is, and a completion
+   can only belong to a call the user issued after connectionLost had returned. *)
+Theorem C09_loss_reentrant :
+  forall acts addr serial0 pre r post,
+    st_phase (run_re acts addr serial0 pre) = Ready ->
+    loss_reentrant_ok r (snap (run_re acts addr serial0 pre))
+                        (snap (conn_phase acts (set_open (run_re acts addr serial0 pre) false) r))
+                        (snap (run_re acts addr serial0 (pre ++ [ECalls (ELost r)]))) /\
+    quiet (snap (run_re acts addr serial0 (pre ++ [ECalls (ELost r)])))
+          (snap (run_re acts addr serial0 (pre ++ ECalls (ELost r) :: post))).
+Proof. exact loss_reentrant. Qed.
+
+(* If the connection-level callbacks registered at the loss do not (un)register callbacks on proxies -
+   whatever else they and the proxy-level callbacks do -, the callbacks that ran are exactly the ones
+   registered at the loss, connection and proxies, each once: the passive statement. *)
+Theorem C09_loss_reentrant_all_registered :
+  forall acts addr serial0 pre r,
+    st_phase (run_re acts addr serial0 pre) = Ready ->
+    (forall cb, In cb (st_dcbs (run_re acts addr serial0 pre)) -> touches_proxy (acts cb) = false) ->
+    Permutation (sn_ran (snap (run_re acts addr serial0 (pre ++ [ECalls (ELost r)]))))
+                (expected_runs r (snap (run_re acts addr serial0 pre))).
+Proof. exact loss_reentrant_all_registered. Qed.
+
+(* A connection-level callback that ran had been registered before the loss began. *)
+Theorem C09_registered_during_loss_does_not_run :
+  forall acts addr serial0 pre r cb r',
+    st_phase (run_re acts addr serial0 pre) = Ready ->
+    In (OConn, cb, r') (sn_ran (snap (run_re acts addr serial0 (pre ++ [ECalls (ELost r)])))) ->
+    In cb (st_dcbs (run_re acts addr serial0 pre)) /\ r' = r.
+Proof. exact conn_callback_ran_was_registered. Qed.
+
+(* Non-vacuity.  One call with a deadline in flight (Deferred 1, serial 8); an explicit proxy with
+   callbacks 21 and 50; connection-level callbacks 40, 7, 41.  40 issues a call with a deadline, registers
+   60 on the connection and 61 on the proxy, cancels 7, itself and 21; 41 issues two calls; 50 (proxy
+   level) issues a call and cancels itself.  After the loss: Deferreds 1-5 have all failed with the
+   reason, no timer is left; 40, 7, 41 ran (7 although cancelled, 60 not); on the proxy 50 and 61 ran
+   (21 was cancelled in time).  Afterwards the timers' serials tick and the user registers once more:
+   nothing happens. *)
+Definition acting : assignment :=
+  table_assignment
+    [ (40, [ACall (Some 5); AReg OConn 60; AReg (OProxy 0) 61; ACancel OConn 7; ACancel OConn 40;
+            ACancel (OProxy 0) 21]);
+      (41, [ACall None; ACall (Some 9)]);
+      (50, [ACall (Some 3); ACancel (OProxy 0) 50]) ].
+
+Definition acting_history : list event :=
+  [ EEpOk; EAuthOk; hello_reply 7; ECalls (ECall CkNormal (Some 5) RsNoCheck);
+    EGetObject PkExplicit 1; EReg (OProxy 0) 21; EReg (OProxy 0) 50;
+    EReg OConn 40; EReg OConn 7; EReg OConn 41 ].
+
+Example C09_acting_callbacks :
+  let lost := run_re acting [AUnix] 7 (acting_history ++ [ECalls (ELost 2)]) in
+  st_phase (run_re acting [AUnix] 7 acting_history) = Ready /\
+  sn_outstanding (snap (run_re acting [AUnix] 7 acting_history)) = [1%nat] /\
+  sn_completed (snap lost) =
+    [(0%nat, OValue (Some (VStr [58; 49; 46; 53]))); (1%nat, OLost 2); (2%nat, OLost 2); (3%nat, OLost 2);
+     (4%nat, OLost 2); (5%nat, OLost 2)] /\
+  sn_outstanding (snap lost) = [] /\ sn_timers (snap lost) = [] /\ sn_issued (snap lost) = 6%nat /\
+  sn_ran (snap lost) = [(OConn, 40, 2); (OConn, 7, 2); (OConn, 41, 2); (OProxy 0, 50, 2); (OProxy 0, 61, 2)] /\
+  let later := run_re acting [AUnix] 7
+                 (acting_history ++ ECalls (ELost 2) ::
+                  [ECalls (ETimer 8); ECalls (ETimer 9); ECalls (ETimer 11); ECalls (ETimer 12); EReg OConn 60;
+                   ECalls (ELost 3)]) in
+  sn_completed (snap later) = sn_completed (snap lost) /\ sn_ran (snap later) = sn_ran (snap lost).
+Proof. vm_compute. repeat split; reflexivity. Qed.
+
 (* ---- the tree before the repairs (step_legacy = step_gen true true) ------------------------------ *)
 
 (* D12: connectionLost returned early while busName was None.  The transport closes during
@@ -186,4 +274,33 @@ Example C09_legacy_eviction_and_nameless_hello :
   (completions (st_calls (run [AUnix] 1 nameless)) = [(0%nat, OValue None); (1%nat, OLost 2)] /\
    timer_serials (st_calls (run [AUnix] 1 nameless)) = [] /\
    st_ran (run [AUnix] 1 nameless) = [(OConn, 3, 2)]).
+Proof. vm_compute. repeat split; reflexivity. Qed.
+
+(* D63: before the repair the proxies were notified after the pending calls had been failed and the table
+   replaced: a call issued by a proxy-level disconnect callback stayed pending, its timer armed (and
+   fired TimeOut later).  D62: both loops walked the live callback list: a callback cancelling itself made
+   the loop skip the next one. *)
+Theorem C09_loss_reentrant_legacy_refuted :
+  exists acts addr serial0 pre r,
+    st_phase (run_re_legacy 100 acts addr serial0 pre) = Ready /\
+    ~ loss_reentrant_ok r (snap (run_re_legacy 100 acts addr serial0 pre))
+                          (snap (conn_phase acts (set_open (run_re_legacy 100 acts addr serial0 pre) false) r))
+                          (snap (run_re_legacy 100 acts addr serial0 (pre ++ [ECalls (ELost r)]))).
+Proof.
+  exists (table_assignment [(50, [ACall (Some 5)])]), [AUnix], 1,
+         [EEpOk; EAuthOk; hello_reply 1; EGetObject PkExplicit 1; EReg (OProxy 0) 50], 2.
+  split; [reflexivity|].
+  intros (H & _). vm_compute in H. discriminate H.
+Qed.
+
+Example C09_legacy_self_cancel_skips_next :
+  let acts := table_assignment [(40, [ACancel OConn 40])] in
+  let pre := [EEpOk; EAuthOk; hello_reply 1; EReg OConn 40; EReg OConn 7; EReg OConn 8] in
+  st_ran (run_re_legacy 100 acts [AUnix] 1 (pre ++ [ECalls (ELost 2)])) = [(OConn, 40, 2); (OConn, 8, 2)] /\
+  st_ran (run_re acts [AUnix] 1 (pre ++ [ECalls (ELost 2)])) = [(OConn, 40, 2); (OConn, 7, 2); (OConn, 8, 2)] /\
+  (* before: a callback registered meanwhile was run by the same loop; now it is not *)
+  let acts' := table_assignment [(40, [AReg OConn 60])] in
+  st_ran (run_re_legacy 100 acts' [AUnix] 1 (pre ++ [ECalls (ELost 2)])) =
+    [(OConn, 40, 2); (OConn, 7, 2); (OConn, 8, 2); (OConn, 60, 2)] /\
+  st_ran (run_re acts' [AUnix] 1 (pre ++ [ECalls (ELost 2)])) = [(OConn, 40, 2); (OConn, 7, 2); (OConn, 8, 2)].
 Proof. vm_compute. repeat split; reflexivity. Qed.
